@@ -183,3 +183,24 @@ Theorem C09_gen_uniform_int_guard : forall (p : list Z) (low up : bound) (indpb 
   forall ds, run (gen_mutUniformInt p low up indpb) ds = Raise IndexError.
 Proof. exact gen_uniform_int_guard. Qed.
 Print Assumptions C09_gen_uniform_int_guard.
+
+(* ---- non-vacuity: the regenerated definitions run to completion on concrete library-consistent streams
+   (the same runs as C09_nonvacuous_runs of Props/C09.v) *)
+Example C09_gen_nonvacuous_runs :
+  run (gen_cxOnePoint [1; 2; 3] [4; 5; 6; 7]) [DRandint 1 2 (Some 2)] = Ok ([1; 2; 6; 7], [4; 5; 3]) /\
+  run (gen_cxTwoPoint [1; 2; 3; 4] [5; 6; 7; 8]) [DRandint 1 4 (Some 4); DRandint 1 3 (Some 2)] = Ok ([1; 2; 7; 8], [5; 6; 3; 4]) /\
+  run (gen_cxUniform [1; 2; 3] [4; 5; 6] (1 # 2)) [DRandom (1 # 4); DRandom (3 # 4); DRandom 0] = Ok ([4; 2; 6], [1; 5; 3]) /\
+  run (gen_cxMessyOnePoint [1; 2; 3] [4; 5]) [DRandint 0 3 (Some 0); DRandint 0 2 (Some 2)] = Ok ([], [4; 5; 1; 2; 3]) /\
+  run (gen_cxESTwoPoint ([1; 2; 3], [11; 12; 13]) ([4; 5; 6], [14; 15; 16])) [DRandint 1 3 (Some 1); DRandint 1 2 (Some 1)]
+    = Ok (([1; 5; 3], [11; 15; 13]), ([4; 2; 6], [14; 12; 16])) /\
+  run (gen_cxPartialyMatched [0; 1; 2; 3; 4] [4; 3; 2; 1; 0]) [DRandint 0 5 (Some 1); DRandint 0 4 (Some 2)] = Ok ([0; 3; 2; 1; 4], [4; 1; 2; 3; 0]) /\
+  run (gen_cxUniformPartialyMatched [0; 1; 2] [2; 0; 1] (1 # 2)) [DRandom 0; DRandom (3 # 4); DRandom (3 # 4)] = Ok ([2; 1; 0], [0; 2; 1]) /\
+  run (gen_cxOrdered [0; 1; 2; 3; 4; 5] [5; 3; 1; 0; 2; 4]) [DSample2 6 (Some (4, 2))] = Ok ([3; 4; 1; 0; 2; 5], [1; 0; 2; 3; 4; 5]) /\
+  run (gen_mutShuffleIndexes [0; 1; 2; 3] (1 # 2))
+      [DRandom 0; DRandint 0 2 (Some 0); DRandom (3 # 4); DRandom 0; DRandint 0 2 (Some 2); DRandom (3 # 4)] = Ok [1; 0; 3; 2] /\
+  run (gen_mutInversion [0; 1; 2; 3; 4]) [DRandrange 5 (Some 4); DRandrange 5 (Some 1)] = Ok [0; 3; 2; 1; 4] /\
+  run (gen_mutFlipBit [GInt 0; GBool true; GFloat 1; GInt 1] (1 # 2)) [DRandom 0; DRandom 0; DRandom 0; DRandom (3 # 4)]
+    = Ok [GInt 1; GBool false; GFloat 0; GInt 1] /\
+  run (gen_mutUniformInt [7; 7; 7] (BScalar (-3)) (BSeq [0; 5; 9; 9]) (1 # 2))
+      [DRandom 0; DRandint (-3) 0 (Some (-3)); DRandom (3 # 4); DRandom 0; DRandint (-3) 9 (Some 9)] = Ok [-3; 7; 9].
+Proof. vm_compute. repeat split. Qed.
